@@ -245,6 +245,32 @@ __CPROVER_assigns(g_memcmp_calls);
                 note='adversarial-read model: the pointer cell may change between any two fetches; the address compared must itself satisfy the range clauses')
 
 
+def memcmp_volatile_src_inst(tier):
+    """the SOURCE pointer lives in sandbox memory (memcmp(s, buf, *pp, n)): mirror of the destination instance"""
+    TVP = cs('rlbox::tainted_volatile<char *, rlbox::vsbx>')
+    stub = '''
+int vstd_memcmp(const void *d, const void *s, unsigned long n)
+__CPROVER_requires(n == 0 || WHOLLY_IN_SOME((uintptr_t)d, n)) /*@memcmp_dest_wholly_inside*/
+__CPROVER_requires(n == 0 || WHOLLY_IN_SOME((uintptr_t)s, n) || WHOLLY_OUT(g_slot, (uintptr_t)s, n)) /*@memcmp_src_one_side*/
+__CPROVER_ensures(g_memcmp_calls == __CPROVER_old(g_memcmp_calls) + 1)
+__CPROVER_assigns(g_memcmp_calls);
+'''
+    P = '((uintptr_t)((const struct %s *)$1)->data)' % TCHAR
+    cl = SB_REQ + [
+        ('ptr_inv', '__CPROVER_requires(%s == 0 || V_WHICH(%s) != -1)' % (P, P)),
+        ('src_cell', '__CPROVER_requires(__CPROVER_r_ok((const struct %s *)$2, sizeof(struct %s)) && V_WHICH((uintptr_t)$2) != -1 && g_expect_example == 0 && g_memcmp_calls == 0)' % (TVP, TVP)),
+        ('performed_once', '__CPROVER_ensures(g_memcmp_calls == 1)'),
+        ('frame', '__CPROVER_assigns(g_memcmp_calls)'),
+    ]
+    h = SB_HARNESS + ('  struct %s p; uintptr_t in_p; p.data = (char *)in_p; struct %s cell; __CPROVER_assume(V_WHICH((uintptr_t)&cell) != -1); unsigned long in_num;\n'
+                      '  g_memcmp_calls = 0; g_noabort = 0; g_expect_example = 0; g_backend_nonnull = 0;\n'
+                      '  $ROOT(&sb, &p, (void *)&cell, &in_num);\n' % (TCHAR, TVP))
+    return Inst('c10_memcmp_src_pointer_in_sandbox_memory', 'rlbox_sandbox<vsbx>& s, tainted<char*, vsbx>& p, tainted_volatile<char*, vsbx>& src, size_t& num', 'memcmp(s, p, src, num);',
+                cl, h, leaves=['dynamic_check', 'vsbx.impl_get_total_memory', CHECK_RANGE_LEAF, 'vsbx.impl_get_unsandboxed_pointer_no_ctx', 'find_sandbox_from_example'], prop=PROP, root_name='memcmp', tier=tier,
+                pre=SPEC + stub, pre_defines=OBJVIEW, extra_replace=['vstd_memcmp'], opts={'amp_star': True, 'volatile_read_check': True}, nondet_volatile=True,
+                note='adversarial-read model: the source pointer cell may change between any two fetches')
+
+
 def unverified_ptr_inst(pointee, tier):
     """unverified_safe_pointer_because(count, reason): the raw pointer handed back has `count` whole elements inside"""
     ptr_spelling = pointee + ' *' if not pointee.endswith(')') else pointee
@@ -434,7 +460,7 @@ def native_access_inst(which, el, esz, tier):
 
 def units(tier):
     insts = [check_range_inst(tier), memset_inst('plain', tier), memset_inst('tainted', tier), memcpy_inst('raw', tier),
-             memcpy_inst('tainted', tier), memcmp_inst(tier), memcmp_inst(tier, 'tainted'), memcmp_inst(tier, 'raw', 'tainted'), memcpy_inst('raw', tier, 'tainted'), memcmp_volatile_size_inst(tier), memcmp_volatile_dest_inst(tier)]
+             memcpy_inst('tainted', tier), memcmp_inst(tier), memcmp_inst(tier, 'tainted'), memcmp_inst(tier, 'raw', 'tainted'), memcpy_inst('raw', tier, 'tainted'), memcmp_volatile_size_inst(tier), memcmp_volatile_dest_inst(tier), memcmp_volatile_src_inst(tier)]
     for pt in (['int', 'char', 'long'] if tier == 'quick' else ['int', 'char', 'long', 'short', 'double', 'long long', 'unsigned char']):
         insts.append(unverified_ptr_inst(pt, tier))
     for pt in (['char', 'long'] if tier == 'quick' else ['int', 'char', 'long', 'short', 'double']):
